@@ -50,6 +50,15 @@ def run_case(c):
                     b.with_minimum_repetitions(op[1])
                 elif name == "minlen":
                     b.with_minimum_substring_length(op[1])
+                elif name in ("minrep_bad", "minlen_bad"):
+                    try:
+                        if name == "minrep_bad":
+                            b.with_minimum_repetitions(op[1])
+                        else:
+                            b.with_minimum_substring_length(op[1])
+                        raise RuntimeError("no ValueError for " + name)
+                    except ValueError:
+                        pass
                 elif name == "build":
                     b.build()
                 else:
